@@ -12,7 +12,11 @@ use roots::{find_roots_cubic, find_roots_quadratic, Roots};
 ///
 #[inline]
 fn solve_roots(p: (f64, f64, f64, f64)) -> Roots<f64> {
-    if p.0.abs() < 0.00000001 {
+    // The closed-form cubic solver loses all accuracy when the leading coefficient is tiny compared to the others: over 0..1 the cubic
+    // term is then negligible, so solve as a quadratic instead (the roots are refined against the full cubic afterwards)
+    let scale = p.1.abs().max(p.2.abs()).max(p.3.abs());
+
+    if p.0.abs() < 0.00000001 || p.0.abs() < scale * 0.00001 {
         if p.1.abs() < 0.00000001 {
             if p.2.abs() < 0.00000001 && p.3.abs() < 0.00000001 {
                 // All coefficients 0. Treat the roots as 0, 1 (curve and line are collinear, most likely)
@@ -37,6 +41,36 @@ fn solve_roots(p: (f64, f64, f64, f64)) -> Roots<f64> {
 /// Return value is a vector of (curve_t, line_t, intersection_point) values. The `line_t` value can be outside the
 /// original line, so this will return all the points on the curve that lie on a line of infinite length.
 /// 
+///
+/// Refines a root of the cubic `p.0*t^3 + p.1*t^2 + p.2*t + p.3` with a few Newton-Raphson steps
+///
+/// The closed-form solvers are only accurate to around 1e-4 when the leading coefficient is small, which is not close enough
+/// for a point that is supposed to be on a line. A step is only taken if it reduces the error, so this never makes a root worse.
+///
+#[inline]
+fn polish_root(p: (f64, f64, f64, f64), t: f64) -> f64 {
+    if p.0.abs() < 0.00000001 && p.1.abs() < 0.00000001 && p.2.abs() < 0.00000001 && p.3.abs() < 0.00000001 {
+        // All coefficients 0: these are the conventional roots for a collinear line, there is nothing to refine
+        return t;
+    }
+
+    let mut t = t;
+
+    for _ in 0..4 {
+        let value       = ((p.0*t + p.1)*t + p.2)*t + p.3;
+        let derivative  = (3.0*p.0*t + 2.0*p.1)*t + p.2;
+        let next_t      = t - value/derivative;
+        let next_value  = ((p.0*next_t + p.1)*next_t + p.2)*next_t + p.3;
+
+        // Only take a step that reduces the error (this also rejects the infinite or NaN step produced by a zero derivative)
+        if next_value.abs() < value.abs() {
+            t = next_t;
+        }
+    }
+
+    t
+}
+
 pub fn curve_intersects_ray<C: BezierCurve, L: Line<Point=C::Point>>(curve: &C, line: &L) -> SmallVec<[(f64, f64, C::Point); 4]>
 where 
     C::Point: Coordinate2D,
@@ -77,6 +111,9 @@ where
 
     let mut result = smallvec![];
     for t in roots.into_iter() {
+        // The solvers are approximate: refine the root against the polynomial
+        let t = polish_root(p, t);
+
         // Allow a small amount of 'slop' for items at the start/end as the root finding is not exact
         let t =
             if t < 0.0 && t > -0.01 {
